@@ -7,17 +7,17 @@ package main
 // with the symbolic run of HcModel/SpecController.lean over the labels regenerated from /repo.
 
 import (
-	"sync"
-	"os"
-	"time"
 	"bytes"
 	"encoding/json"
 	"fmt"
 	"io/ioutil"
 	"math/big"
 	"math/rand"
+	"os"
 	"path/filepath"
 	"strings"
+	"sync"
+	"time"
 
 	"github.com/brutella/hc/accessory"
 	"github.com/brutella/hc/db"
